@@ -18,6 +18,7 @@ import (
 	"github.com/foxboron/go-uefi/efi"
 	"github.com/foxboron/go-uefi/efi/attributes"
 	"github.com/foxboron/go-uefi/efi/device"
+	"github.com/foxboron/go-uefi/efivar"
 	efs "github.com/foxboron/go-uefi/efi/fs"
 	"github.com/foxboron/go-uefi/efivarfs/testfs"
 	"github.com/spf13/afero"
@@ -465,6 +466,167 @@ func emitOptionSeq(c *Ctx, class string, opts [][]byte) {
 	}
 }
 
+// c18EvalEntryHistory runs a HISTORY on ONE Efivarfs handle over an in-memory store that holds several Boot####
+// variables: look an entry up (GetBootEntry), rewrite the variable through the same handle (WriteVar with a complete
+// load option - what a boot manager does when it updates an entry), let the caller change the struct a lookup returned
+// (description, attributes, path-list length, first node: the value is the caller's), and look the entry up again.
+// "Decoding a load option ... recovers its attributes, path-list length, description and each node's fields", "each
+// returned name resolves through the boot-entry accessor": every lookup must give the decode of the bytes the variable
+// holds AT THE TIME OF THAT CALL - the decode of the same bytes into a fresh EFILoadOption value, and the model's -
+// whatever was looked up, written or changed by the caller before; and what a lookup returned and the caller did not
+// touch must still read as it read when it was returned after the later steps.
+func c18EvalEntryHistory(c *Ctx, cs Case) {
+	cur := map[string][]byte{}
+	files := fstest.MapFS{}
+	var names []string
+	for _, kv := range strings.Split(cs.S("vars"), ";") {
+		if f := strings.SplitN(kv, "=", 2); len(f) == 2 {
+			cur[f[0]] = unhx(f[1])
+			names = append(names, f[0])
+			files[bootFile(f[0])] = &fstest.MapFile{Data: append([]byte{7, 0, 0, 0}, cur[f[0]]...)}
+		}
+	}
+	steps := strings.Split(cs.S("steps"), ",")
+	decodeFresh := func(b []byte) string {
+		var lo device.EFILoadOption
+		out := "err"
+		if pan, _ := safely(func() {
+			if lo.Unmarshal(bytes.NewBuffer(append([]byte{}, b...))) == nil {
+				out = "ok " + goLoadOptionStr(&lo)
+			}
+		}); pan {
+			out = "panic"
+		}
+		return out
+	}
+	type keptT struct {
+		step    int
+		lo      *device.EFILoadOption
+		then    string
+		touched bool
+	}
+	var kept []*keptT
+	last := map[string]*keptT{}
+	kinds := map[string]bool{}
+	var fails []Failure
+	panicked, pmsg := safely(func() {
+		fs := testfs.NewTestFS().With(files).Open()
+		for i, st := range steps {
+			f := strings.Split(st, ":")
+			if len(f) < 2 {
+				continue
+			}
+			name := f[1]
+			switch f[0] {
+			case "get":
+				lo, err := fs.GetBootEntry(name)
+				got := "err"
+				if err == nil && lo != nil {
+					got = "ok " + goLoadOptionStr(lo)
+				}
+				b, exists := cur[name]
+				want := "err"
+				if exists {
+					want = decodeFresh(b)
+					c.Trace()
+					if m := lowerTexts(c.Drv.Ask("boot.option", hx(b))); m != want {
+						fails = append(fails, Failure{Kind: "tie", What: "EFILoadOption.Unmarshal: model and implementation disagree on the bytes a boot variable holds", Case: cs, Model: clip(m), Go: clip(want)})
+					}
+				}
+				if got != want {
+					fails = append(fails, Failure{Kind: "property", What: fmt.Sprintf("step %d (%s): GetBootEntry(%s) does not give the decode of the bytes the variable holds at the time of the call (earlier steps on the same handle: %s)", i, st, name, strings.Join(steps[:i], ",")), Case: cs, Go: clip(got), Spec: clip(want)})
+				}
+				if err == nil && lo != nil {
+					k := &keptT{step: i, lo: lo, then: got}
+					kept = append(kept, k)
+					last[name] = k
+				}
+			case "write":
+				if len(f) < 3 {
+					continue
+				}
+				b := unhx(f[2])
+				v := efivar.BootEntry
+				v.Name = name
+				if err := fs.WriteVar(v, rawValue(b)); err != nil {
+					fails = append(fails, Failure{Kind: "property", What: fmt.Sprintf("step %d: writing %s through the handle failed: %v", i, name, err), Case: cs})
+					return
+				}
+				cur[name] = b
+				kinds["write"] = true
+			case "mutate":
+				// the caller changes what it was given
+				if k := last[name]; k != nil {
+					k.touched = true
+					k.lo.Description = "scratch " + k.lo.Description
+					k.lo.Attributes ^= 0x5a5a
+					k.lo.FilePathListLength++
+					if len(k.lo.FilePath) > 0 {
+						k.lo.FilePath[0] = device.EFIDevicePath{Type: 0x7e, SubType: 0x7e}
+						k.lo.FilePath = k.lo.FilePath[:len(k.lo.FilePath)-1]
+					} else {
+						k.lo.FilePath = append(k.lo.FilePath, device.EFIDevicePath{Type: 0x7e, SubType: 0x7e})
+					}
+					kinds["mutate"] = true
+				}
+			}
+		}
+	})
+	ks := []string{}
+	for _, k := range []string{"write", "mutate"} {
+		if kinds[k] {
+			ks = append(ks, k)
+		}
+	}
+	c.Count(cs.Key(), len(steps) > 1, fmt.Sprintf("entry-history/vars%d/%s", len(names), strings.Join(ks, "+")))
+	if len(cs.S("vars"))+len(cs.S("steps")) < 600 {
+		c.Sample(cs)
+	}
+	if panicked {
+		c.Fail(Failure{Kind: "property", What: "a history of boot entry lookups and writes on one handle panicked: " + pmsg, Case: cs})
+		return
+	}
+	for _, f := range fails {
+		c.Fail(f)
+	}
+	if len(fails) > 0 {
+		return
+	}
+	for _, k := range kept {
+		if k.touched {
+			continue
+		}
+		if now := "ok " + goLoadOptionStr(k.lo); now != k.then {
+			c.Fail(Failure{Kind: "property", What: fmt.Sprintf("the load option returned by the lookup of step %d, which the caller did not change, no longer reads as returned after the later steps (%s) on the same handle", k.step, strings.Join(steps[k.step+1:], ",")), Case: cs, Go: clip(now), Spec: clip(k.then)})
+			return
+		}
+	}
+}
+
+// emitEntryHistory evaluates a history; a failing one is reduced by dropping steps while it still fails.
+func emitEntryHistory(c *Ctx, vars string, steps []string) {
+	mk := func(st []string) Case {
+		return Case{"op": "entry-history", "vars": vars, "steps": strings.Join(st, ",")}
+	}
+	n0 := c.NFailures()
+	c18EvalEntryHistory(c, mk(steps))
+	if c.NFailures() == n0 {
+		return
+	}
+	best := steps
+	for changed := true; changed && len(best) > 1; {
+		changed = false
+		for i := 0; i < len(best); i++ {
+			cand := append(append([]string{}, best[:i]...), best[i+1:]...)
+			if fs := c.Probe(func(p *Ctx) { c18EvalEntryHistory(p, mk(cand)) }); len(fs) > 0 {
+				best, changed = cand, true
+				c.ReplaceFailuresFrom(n0, fs)
+				break
+			}
+		}
+	}
+}
+
 func nodesStr(ps []device.EFIDevicePaths) string {
 	var xs []string
 	for _, p := range ps {
@@ -493,6 +655,8 @@ func c18Eval(c *Ctx, cs Case) {
 		c18EvalOption(c, cs)
 	case "option-seq":
 		c18EvalOptionSeq(c, cs)
+	case "entry-history":
+		c18EvalEntryHistory(c, cs)
 	}
 }
 
@@ -758,11 +922,54 @@ func c18Gen(c *Ctx) {
 		}
 		emitOptionSeq(c, class, seq)
 	}
+	// histories on ONE Efivarfs handle over a store of 1..3 Boot#### variables (names with hex letters included):
+	// 3..8 steps of lookups, rewrites of a variable through the same handle (another option of the pool) and changes
+	// the caller makes to the struct a lookup returned; a lookup follows every rewrite and every change sooner or
+	// later (the last steps look every variable up once more). Generator of its own, so that the cases above stay.
+	hsub := mrand.New(mrand.NewSource(c.Seed*15485863 + 41 + int64(c.Shard)*1000003))
+	var whole [][]byte
+	for _, b := range pool {
+		if decodeOK(b) {
+			whole = append(whole, b)
+		}
+	}
+	for i := 0; i < c.N(150, 4000) && c.NFailures() < 8 && len(whole) > 1; i++ {
+		nv := 1 + hsub.Intn(3)
+		var vnames, vars []string
+		for j := 0; j < nv; j++ {
+			nm := fmt.Sprintf("Boot%04X", []int{0, 1, 0xA, 0x1F, 0xABCD, hsub.Intn(65536)}[hsub.Intn(6)]+j)
+			vnames = append(vnames, nm)
+			vars = append(vars, nm+"="+hx(whole[hsub.Intn(len(whole))]))
+		}
+		var steps []string
+		for j, n := 0, 2+hsub.Intn(6); j < n; j++ {
+			nm := vnames[hsub.Intn(nv)]
+			switch r := hsub.Intn(10); {
+			case r < 5 || j == 0:
+				steps = append(steps, "get:"+nm)
+			case r < 8:
+				steps = append(steps, "write:"+nm+":"+hx(whole[hsub.Intn(len(whole))]))
+			default:
+				steps = append(steps, "mutate:"+nm)
+			}
+		}
+		for _, nm := range vnames {
+			steps = append(steps, "get:"+nm)
+		}
+		emitEntryHistory(c, strings.Join(vars, ";"), steps)
+	}
+}
+
+// decodeOK: the load option decodes (in-process; only used on complete options)
+func decodeOK(b []byte) (ok bool) {
+	var lo device.EFILoadOption
+	pan, _ := safely(func() { ok = lo.Unmarshal(bytes.NewBuffer(append([]byte{}, b...))) == nil })
+	return ok && !pan
 }
 
 func init() {
 	register("C18", &PropDef{
-		Rule:   "all 65536 boot numbers (exhaustive), each resolved through GetBootEntry on an in-memory store holding the firmware-named variable; boot orders of 0..64 entries; the captured Boot#### variables of tests/data/boot; generated load options of 0..5 nodes over PCI, ACPI, hard-drive (signature types GPT, MBR, none and arbitrary, with an equal or a different partition-format byte; partition numbers incl. 0), file-path (ASCII, non-BMP, empty), firmware-file and USB nodes with arbitrary field values, five fixed descriptions and random descriptions (Latin-1, code units with a zero low byte such as U+0100 and U+4E00, other BMP, non-BMP), plus 264 options whose description AND one file-path name BEGIN with a boundary character of the UTF-16 code space - U+FEFF and U+FFFE (the code units of a byte order mark: a leading U+FEFF is a character of the string, not a mark), U+FFFD, U+FFFF, U+D7FF, U+E000, U+10000, U+10FFFF, U+0100, U+00FF, U+0001 - alone, followed by text, and with the same characters again later in the string (description and file name must come back exactly, the File(...) text form included), plus 125 options [thorough: 1000] whose description and one file-path name hold a character sequence that a text formatting layer gives a meaning of its own - '%' alone and before a verb letter, flag, digit or another '%' (%s %d %v %x %q %! %% %5 %- %+v %[1]s %%%), backslash-n / backslash-t, {} {{.}} ${x} $1, quotes, parentheses and commas - at the start, in the middle, at the end of an ordinary name, alone, and several times in one name (the text form must be File(<path name>) with the name exactly as decoded), encoded by an encoder written in the harness from the UEFI specification (the model's Spec encoder is tied to it byte for byte); every captured option and every second generated one [thorough: every one] is also decoded through the other public entry points - ParseEFILoadOption followed by ParseDevicePath, Efivarfs.GetBootEntry on an in-memory store that holds it as Boot0001, and the package-level efi.GetBootEntry - and must give the fields it was built from (captured: what Unmarshal gives); boot orders of odd length (a trailing single byte behind 0..24 complete entries, 25 orders) must decode to exactly the names of the complete entries on both accessors (F35 repair: Efivarfs.GetBootOrder made up a last entry from the trailing byte); sequences of 2..5 captured and generated load options decoded one after the other into ONE EFILoadOption value (300 sequences [thorough: 6000]; a quarter of the later members cut inside the device path list or down to 0..5 bytes, so that their decode returns an error) with every decoded result kept by the caller (struct copy and FilePath slice): each result must equal the decode of the same bytes into a fresh value and the model's, and every kept result must still read the same after all later decodes, failed ones included. Non-trivial: a non-empty order / an option longer than the minimal one / a sequence of at least two members; distinct = distinct cases.",
+		Rule:   "all 65536 boot numbers (exhaustive), each resolved through GetBootEntry on an in-memory store holding the firmware-named variable; boot orders of 0..64 entries; the captured Boot#### variables of tests/data/boot; generated load options of 0..5 nodes over PCI, ACPI, hard-drive (signature types GPT, MBR, none and arbitrary, with an equal or a different partition-format byte; partition numbers incl. 0), file-path (ASCII, non-BMP, empty), firmware-file and USB nodes with arbitrary field values, five fixed descriptions and random descriptions (Latin-1, code units with a zero low byte such as U+0100 and U+4E00, other BMP, non-BMP), plus 264 options whose description AND one file-path name BEGIN with a boundary character of the UTF-16 code space - U+FEFF and U+FFFE (the code units of a byte order mark: a leading U+FEFF is a character of the string, not a mark), U+FFFD, U+FFFF, U+D7FF, U+E000, U+10000, U+10FFFF, U+0100, U+00FF, U+0001 - alone, followed by text, and with the same characters again later in the string (description and file name must come back exactly, the File(...) text form included), plus 125 options [thorough: 1000] whose description and one file-path name hold a character sequence that a text formatting layer gives a meaning of its own - '%' alone and before a verb letter, flag, digit or another '%' (%s %d %v %x %q %! %% %5 %- %+v %[1]s %%%), backslash-n / backslash-t, {} {{.}} ${x} $1, quotes, parentheses and commas - at the start, in the middle, at the end of an ordinary name, alone, and several times in one name (the text form must be File(<path name>) with the name exactly as decoded), encoded by an encoder written in the harness from the UEFI specification (the model's Spec encoder is tied to it byte for byte); every captured option and every second generated one [thorough: every one] is also decoded through the other public entry points - ParseEFILoadOption followed by ParseDevicePath, Efivarfs.GetBootEntry on an in-memory store that holds it as Boot0001, and the package-level efi.GetBootEntry - and must give the fields it was built from (captured: what Unmarshal gives); boot orders of odd length (a trailing single byte behind 0..24 complete entries, 25 orders) must decode to exactly the names of the complete entries on both accessors (F35 repair: Efivarfs.GetBootOrder made up a last entry from the trailing byte); sequences of 2..5 captured and generated load options decoded one after the other into ONE EFILoadOption value (300 sequences [thorough: 6000]; a quarter of the later members cut inside the device path list or down to 0..5 bytes, so that their decode returns an error) with every decoded result kept by the caller (struct copy and FilePath slice): each result must equal the decode of the same bytes into a fresh value and the model's, and every kept result must still read the same after all later decodes, failed ones included; histories on ONE Efivarfs handle over an in-memory store of 1..3 Boot#### variables (150 histories [thorough: 4000] of 3..11 steps: GetBootEntry(name), the variable rewritten through the same handle's WriteVar with another complete load option, the caller changing the struct a lookup returned - description, attributes, path-list length, nodes -, and a closing lookup of every variable): every lookup must give the decode of the bytes the variable holds at the time of that call (decode into a fresh value, and the model's), and what a lookup returned and the caller left alone must still read as returned after the later steps; a failing history is reduced step by step. Non-trivial: a non-empty order / an option longer than the minimal one / a sequence of at least two members; distinct = distinct cases.",
 		Assume: []string{"load options handed to the in-process decoder are complete (truncated ones end the process on the unrepaired tree and are C14's domain), except the failing members of the decode sequences, which are cut inside the description / device path list and must come back as an error"},
 		Eval:   c18Eval, Gen: c18Gen,
 	})
